@@ -335,6 +335,170 @@ package render
 //@   ensures [returns] true
 //@ end
 
+// C07 empty-leaf lemma: a finest cell the pruning rule would have discarded
+// one level up can still be visited when |f(centre)| is exactly the half
+// diagonal; the corner where f is then 0 is the only corner not strictly
+// inside, every table vertex snaps to that corner (the other values are at
+// least epsilon away) and the degeneracy filter drops every element. Proved on
+// the real cell generators with the real interpolation and degeneracy test
+// inlined (opt prune: branches the preconditions decide are not forked).
+
+//@ func mcToTriangles
+//@   property C07
+//@   id lone-zero-corner-0
+//@   opt split
+//@   opt prune
+//@   requires v[0] == x
+//@   requires v[1] <= x - epsilon && v[2] <= x - epsilon && v[3] <= x - epsilon && v[4] <= x - epsilon && v[5] <= x - epsilon && v[6] <= x - epsilon && v[7] <= x - epsilon
+//@   ensures [emits-nothing] len(r) == 0
+//@ end
+
+//@ func mcToTriangles
+//@   property C07
+//@   id lone-zero-corner-1
+//@   opt split
+//@   opt prune
+//@   requires v[1] == x
+//@   requires v[0] <= x - epsilon && v[2] <= x - epsilon && v[3] <= x - epsilon && v[4] <= x - epsilon && v[5] <= x - epsilon && v[6] <= x - epsilon && v[7] <= x - epsilon
+//@   ensures [emits-nothing] len(r) == 0
+//@ end
+
+//@ func mcToTriangles
+//@   property C07
+//@   id lone-zero-corner-2
+//@   opt split
+//@   opt prune
+//@   requires v[2] == x
+//@   requires v[0] <= x - epsilon && v[1] <= x - epsilon && v[3] <= x - epsilon && v[4] <= x - epsilon && v[5] <= x - epsilon && v[6] <= x - epsilon && v[7] <= x - epsilon
+//@   ensures [emits-nothing] len(r) == 0
+//@ end
+
+//@ func mcToTriangles
+//@   property C07
+//@   id lone-zero-corner-3
+//@   opt split
+//@   opt prune
+//@   requires v[3] == x
+//@   requires v[0] <= x - epsilon && v[1] <= x - epsilon && v[2] <= x - epsilon && v[4] <= x - epsilon && v[5] <= x - epsilon && v[6] <= x - epsilon && v[7] <= x - epsilon
+//@   ensures [emits-nothing] len(r) == 0
+//@ end
+
+//@ func mcToTriangles
+//@   property C07
+//@   id lone-zero-corner-4
+//@   opt split
+//@   opt prune
+//@   requires v[4] == x
+//@   requires v[0] <= x - epsilon && v[1] <= x - epsilon && v[2] <= x - epsilon && v[3] <= x - epsilon && v[5] <= x - epsilon && v[6] <= x - epsilon && v[7] <= x - epsilon
+//@   ensures [emits-nothing] len(r) == 0
+//@ end
+
+//@ func mcToTriangles
+//@   property C07
+//@   id lone-zero-corner-5
+//@   opt split
+//@   opt prune
+//@   requires v[5] == x
+//@   requires v[0] <= x - epsilon && v[1] <= x - epsilon && v[2] <= x - epsilon && v[3] <= x - epsilon && v[4] <= x - epsilon && v[6] <= x - epsilon && v[7] <= x - epsilon
+//@   ensures [emits-nothing] len(r) == 0
+//@ end
+
+//@ func mcToTriangles
+//@   property C07
+//@   id lone-zero-corner-6
+//@   opt split
+//@   opt prune
+//@   requires v[6] == x
+//@   requires v[0] <= x - epsilon && v[1] <= x - epsilon && v[2] <= x - epsilon && v[3] <= x - epsilon && v[4] <= x - epsilon && v[5] <= x - epsilon && v[7] <= x - epsilon
+//@   ensures [emits-nothing] len(r) == 0
+//@ end
+
+//@ func mcToTriangles
+//@   property C07
+//@   id lone-zero-corner-7
+//@   opt split
+//@   opt prune
+//@   requires v[7] == x
+//@   requires v[0] <= x - epsilon && v[1] <= x - epsilon && v[2] <= x - epsilon && v[3] <= x - epsilon && v[4] <= x - epsilon && v[5] <= x - epsilon && v[6] <= x - epsilon
+//@   ensures [emits-nothing] len(r) == 0
+//@ end
+
+//@ func mcToTriangles
+//@   property C07
+//@   id every-corner-inside
+//@   opt split
+//@   opt prune
+//@   requires v[0] < x && v[1] < x && v[2] < x && v[3] < x && v[4] < x && v[5] < x && v[6] < x && v[7] < x
+//@   ensures [emits-nothing] len(r) == 0
+//@ end
+
+//@ func mcToTriangles
+//@   property C07
+//@   id no-corner-inside
+//@   opt split
+//@   opt prune
+//@   requires v[0] >= x && v[1] >= x && v[2] >= x && v[3] >= x && v[4] >= x && v[5] >= x && v[6] >= x && v[7] >= x
+//@   ensures [emits-nothing] len(r) == 0
+//@ end
+
+//@ func msToLines
+//@   property C07
+//@   id lone-zero-corner-0
+//@   opt split
+//@   opt prune
+//@   requires v[0] == x
+//@   requires v[1] <= x - epsilon && v[2] <= x - epsilon && v[3] <= x - epsilon
+//@   ensures [emits-nothing] len(r) == 0
+//@ end
+
+//@ func msToLines
+//@   property C07
+//@   id lone-zero-corner-1
+//@   opt split
+//@   opt prune
+//@   requires v[1] == x
+//@   requires v[0] <= x - epsilon && v[2] <= x - epsilon && v[3] <= x - epsilon
+//@   ensures [emits-nothing] len(r) == 0
+//@ end
+
+//@ func msToLines
+//@   property C07
+//@   id lone-zero-corner-2
+//@   opt split
+//@   opt prune
+//@   requires v[2] == x
+//@   requires v[0] <= x - epsilon && v[1] <= x - epsilon && v[3] <= x - epsilon
+//@   ensures [emits-nothing] len(r) == 0
+//@ end
+
+//@ func msToLines
+//@   property C07
+//@   id lone-zero-corner-3
+//@   opt split
+//@   opt prune
+//@   requires v[3] == x
+//@   requires v[0] <= x - epsilon && v[1] <= x - epsilon && v[2] <= x - epsilon
+//@   ensures [emits-nothing] len(r) == 0
+//@ end
+
+//@ func msToLines
+//@   property C07
+//@   id every-corner-inside
+//@   opt split
+//@   opt prune
+//@   requires v[0] < x && v[1] < x && v[2] < x && v[3] < x
+//@   ensures [emits-nothing] len(r) == 0
+//@ end
+
+//@ func msToLines
+//@   property C07
+//@   id no-corner-inside
+//@   opt split
+//@   opt prune
+//@   requires v[0] >= x && v[1] >= x && v[2] >= x && v[3] >= x
+//@   ensures [emits-nothing] len(r) == 0
+//@ end
+
 //@ func dcache3.processCube
 //@   property C07
 //@   id one-level
